@@ -85,7 +85,17 @@ def containers():
         xa, ya = x.copy(), y.copy()
         return [xa, ya], [xa, ya]
 
-    return {"c64": c64, "f32": f32, "fortran": fortran, "nx2": nx2, "nx2_F": nx2_f, "nx2_F_readonly": nx2_f_readonly,
+    def objarr(x, y):
+        a = np.empty((2, x.size), dtype=object)   # object-dtype array of Python floats (what a pandas object column yields)
+        for i in range(x.size):
+            a[0, i], a[1, i] = float(x[i]), float(y[i])
+        return a, []
+
+    def listnone(x, y):
+        # list of channels in which missing samples are None (NaN positions) and infinities are Python floats
+        return [[None if np.isnan(v) else float(v) for v in x], [None if np.isnan(v) else float(v) for v in y]], []
+
+    return {"objarr": objarr, "listnone": listnone, "c64": c64, "f32": f32, "fortran": fortran, "nx2": nx2, "nx2_F": nx2_f, "nx2_F_readonly": nx2_f_readonly,
             "fortran_readonly": fortran_readonly, "strided": strided, "readonly": readonly, "listlist": lol, "listarr": loa}
 
 
@@ -111,7 +121,13 @@ def containers_1d():
         a = x.astype(np.float32)
         return a, [a]
 
-    return {"c64": c64, "strided": strided, "readonly": readonly, "list": lst, "f32": f32}
+    def objarr(x):
+        a = np.empty(x.size, dtype=object)
+        for i in range(x.size):
+            a[i] = None if np.isnan(x[i]) else float(x[i])
+        return a, []
+
+    return {"c64": c64, "strided": strided, "readonly": readonly, "list": lst, "f32": f32, "objarr": objarr}
 
 
 def shards(tier, seed):
